@@ -316,9 +316,9 @@ EqLaws(xs, on, k) ==
                 \/ SameOutlineI(GridOutline(ShiftOutline(o, Rat(1, 128)), G), g, 4)
                 \/ SameOutlineI(g, <<>>, 4)
           THEN "eq:grid"
-     ELSE IF \E n \in {-7, -1, 0, 2, 5} : \E d \in {1, 3, 7, 4096} :
-               LET v == GridCoord(Rat(n, d), 2048) IN v = GBad \/ 2 * IDist(v * d, n * 2048) > d THEN "eq:gridcoord"
-     ELSE IF GridCoord(Rat(2000000, 3), 2048) # GBad \/ GridCoord(RNaN, 2048) # GBad THEN "eq:gridcoord-overflow"
+     ELSE IF \E nn \in {-7, -1, 0, 2, 5} : \E d \in {1, 3, 7, 4096} :
+               LET v == GridCoord(Rat(nn, d), 2048) IN v = GBad \/ 2 * IDist(v * d, nn * 2048) > d THEN "eq:gridcoord"
+     ELSE IF GridCoord(Rat(4000000, 3), 2048) # GBad \/ GridCoord(RNaN, 2048) # GBad THEN "eq:gridcoord-overflow"
      ELSE IF ShiftCandidates(Rat(5, 2), TRUE) # {Rat(5, 2), RInt(2), RInt(3)} \/ ShiftCandidates(Rat(-7, 4), TRUE) # {Rat(-7, 4), RInt(-2)}
              \/ ShiftCandidates(Rat(5, 2), FALSE) # {Rat(5, 2)} THEN "eq:shift-candidates"
      ELSE IF ~AdvanceOK(RInt(611), Rat(1223, 2), tol) \/ ~AdvanceOK(RInt(612), Rat(1223, 2), tol) \/ AdvanceOK(RInt(613), Rat(1223, 2), tol)
